@@ -131,7 +131,7 @@ def run(ctx):
         mg = one(b, r"AggState::merge$")
         ent = one(b, r"(HashMap|BTreeMap)::entry$")
         ins = one(b, r"Entry.*::or_insert_with$|or_insert$")
-        nxt = [c for c in b.find_calls(r"Iterator>::next$")]
+        nxt = [c for c in for_headers(b)]
         inst.sites = [sp(b, ent.bb), sp(b, ins.bb), sp(b, mg.bb)]
         bad = []
         outer = [c for c in nxt if has_origin(b.origins(c.args[0], transparent=NEXT_TRANSPARENT), "param", "other", proj_contains=[".groups"])]
